@@ -56,6 +56,11 @@ Fixpoint zseq_map {A} (f : Z -> A) (i : Z) (n : nat) : list A :=
 Definition zigzag (n : nat) : contour :=
   zseq_map (fun z => (inject_Z (z mod 20000), inject_Z (40 * (z / 20000) + 10 * (z mod 2)))) 0 n.
 
+(* n two-point contours: contour i = (10 (i mod 200), 10 (i / 200)), (+5, +5) *)
+Definition twopoints (n : nat) : list contour :=
+  zseq_map (fun z => [(inject_Z (10 * (z mod 200)), inject_Z (10 * (z / 200)));
+                      (inject_Z (10 * (z mod 200) + 5), inject_Z (10 * (z / 200) + 5))]) 0 n.
+
 (* k components of glyph gid at offsets (i mod 100, i / 100) *)
 Definition grid_comps (gid : Z) (k : nat) : list (Z * affine) :=
   zseq_map (fun z => (gid, (1, 0, 0, 1, inject_Z (z mod 100), inject_Z (z / 100))%Q)) 0 k.
